@@ -82,9 +82,34 @@ pub fn check_text(acc: &mut Acc, s: &str) {
                             acc.fail("C17", "label:alpha-text-not-alpha", format!("{s:?} does not parse to Alpha({n})"), replay.clone());
                         }
                     }
-                    // a second parse gives an equal label; a different text must not (checked through the round trip)
+                    // a second parse gives an equal label
                     if Label::from_str(s).ok() != Some(l) {
-                        acc.fail("C17", "label:parse-not-stable", format!("{s:?} parses to two different labels"), replay);
+                        acc.fail("C17", "label:parse-not-stable", format!("{s:?} parses to two different labels"), replay.clone());
+                    }
+                    // distinct texts give distinct labels, compared with == in both directions against
+                    // the neighbours of s: its proper prefixes, s with the last character changed, s extended
+                    let chars: Vec<char> = s.chars().collect();
+                    let mut neighbours: Vec<String> = (1..chars.len()).map(|k| chars[..k].iter().collect()).collect();
+                    for c in ['a', 'b', 'ρ', '1'] {
+                        let mut t = chars.clone();
+                        if t.last() != Some(&c) {
+                            *t.last_mut().unwrap() = c;
+                            neighbours.push(t.iter().collect());
+                        }
+                        let mut e = chars.clone();
+                        e.push(c);
+                        neighbours.push(e.iter().collect());
+                    }
+                    for t in neighbours {
+                        if t == s || !matches!(classify(&t), Class::Plain | Class::AlphaCanonical) {
+                            continue;
+                        }
+                        if let Ok(Ok(o)) = guarded(|| Label::from_str(&t).map_err(|e| e.to_string())) {
+                            if guarded(|| l == o || o == l) != Ok(false) {
+                                acc.fail("C17", "label:distinct-texts-equal-labels", format!("the distinct texts {s:?} and {t:?} give labels that compare equal"), replay);
+                                break;
+                            }
+                        }
                     }
                 }
             }
@@ -253,7 +278,7 @@ pub fn run_c17(tier: &str) -> Outcome {
     acc.bump("canonical_values", values.len() as u64);
     acc.merge(vacc);
     let rule = format!(
-        "every string of length 0..={max1} over {{a Z 7 0 + - _ α ρ φ Δ 𝜑 space}} and of length 0..={max2} over {{a ρ α 5 𝜑}} plus boundary texts; every canonical value Greek(c), Alpha(n) at every decimal-length boundary up to usize::MAX, Str of 2..=8 characters over the small and 2..={} over the large alphabet. A text is non-trivial when the statement settles it (valid: must round-trip; too long / malformed index: must be Err); injectivity of valid texts follows from the round trip being checked on every one of them",
+        "every string of length 0..={max1} over {{a Z 7 0 + - _ α ρ φ Δ 𝜑 space}} and of length 0..={max2} over {{a ρ α 5 𝜑}} plus boundary texts; every canonical value Greek(c), Alpha(n) at every decimal-length boundary up to usize::MAX, Str of 2..=8 characters over the small and 2..={} over the large alphabet. A text is non-trivial when the statement settles it (valid: must round-trip; too long / malformed index: must be Err); distinctness is checked with == in both directions against each valid text's neighbours (proper prefixes, last character changed, one character appended) in addition to the round trip",
         if quick { 3 } else { 4 }
     );
     super::outcome("C17", tier, "exploration", &rule, acc, true, json!({}), t0.elapsed().as_secs_f64(), vec!["reading of the statement: 'longer than 8 characters' applies to texts that do not start with α (Alpha(n) must round-trip for every n); α05, α+5, empty text and texts with spaces are not settled by the statement".to_string()], vec![])
